@@ -18,7 +18,7 @@ from cryptography import x509
 from ..protocol.constants import CRLF, MAX_REQUEST_SIZE
 from ..protocol.request import GeminiRequest, TitanRequest
 from ..protocol.response import GeminiResponse
-from ..protocol.status import StatusCode
+from ..protocol.status import StatusCode, is_success
 from ..utils.logging import get_logger
 
 if TYPE_CHECKING:
@@ -268,17 +268,35 @@ class GeminiServerProtocol(asyncio.Protocol):
             duration_ms=round(duration_ms, 2),
         )
 
-        # Build response header: <STATUS><SPACE><META><CRLF>
-        header = f"{response.status} {response.meta}\r\n"
-        self.transport.write(header.encode("utf-8"))
+        # Build the complete response before writing anything, so that a
+        # failure here can never leave a half-written response on the wire.
+        status = response.status
+        meta = response.meta
+        if not 10 <= status <= 69:
+            # Handlers must return a two-digit Gemini status
+            status = StatusCode.TEMPORARY_FAILURE.value
+            meta = "Server error: invalid status from handler"
 
-        # Send body if present (only for 2x success responses)
-        # FIX: Handle both text (str) and binary (bytes) content
-        if response.body:
+        # <META> is a single line of at most 1024 bytes
+        meta = meta.replace("\r", " ").replace("\n", " ")
+        meta = meta.encode("utf-8", errors="replace")[:1024].decode(
+            "utf-8", errors="ignore"
+        )
+
+        # <STATUS><SPACE><META><CRLF>
+        header = f"{status} {meta}\r\n".encode("utf-8")
+
+        # A body is only sent with 2x success responses (text or binary)
+        body = b""
+        if is_success(status) and response.body:
             if isinstance(response.body, bytes):
-                self.transport.write(response.body)
+                body = response.body
             else:
-                self.transport.write(response.body.encode("utf-8"))
+                body = response.body.encode("utf-8")
+
+        self.transport.write(header)
+        if body:
+            self.transport.write(body)
 
         # Close connection (Gemini/Titan: one request per connection)
         self.transport.close()
